@@ -251,6 +251,38 @@ func runC19(args []string) {
 		return []string{bebopfmt, "-w", "missing.bop"}, filepath.Join(dir, "other.bop"), []byte(validSchema)
 	}})
 
+	// very long lines (string const, deprecation message, comment) must survive bebopfmt -w
+	longLine := func(n int) string {
+		return "struct Keep1 {\n    int32 a;\n}\nconst string blob = \"" + strings.Repeat("x", n) + "\";\nmessage Keep2 {\n    1 -> string s;\n}\n// " + strings.Repeat("c", n) + "\nenum Keep3 {\n    A = 1;\n}\n"
+	}
+	for _, n := range []int{1000, 70000, 200000} {
+		cells = append(cells, &c19Cell{tool: "bebopfmt", input: fmt.Sprintf("valid:long-line-%d", n), fault: "none", setup: format(longLine(n))})
+		cells = append(cells, &c19Cell{tool: "bebopc-go", input: fmt.Sprintf("valid:long-line-%d", n), fault: "none", setup: compile("valid", longLine(n))})
+	}
+	// the target reached through a symbolic link: the file behind the link is what must survive
+	symlinked := func(inner func(dir string) ([]string, string, []byte)) func(dir string) ([]string, string, []byte) {
+		return func(dir string) ([]string, string, []byte) {
+			argv, tgt, orig := inner(dir)
+			real := tgt + ".real"
+			os.Rename(tgt, real)
+			os.Symlink(filepath.Base(real), tgt)
+			// judged through the path the tool was given (reads follow the link)
+			return argv, tgt, orig
+		}
+	}
+	bigValid := longLine(60000)
+	for _, tg := range []struct {
+		tool  string
+		setup func(dir string) ([]string, string, []byte)
+	}{{"bebopc-go", symlinked(compile("valid", bigValid))}, {"bebopfmt", symlinked(format(bigValid))}, {"bebopc-go", symlinked(compile("validation-error", dupSchema))}} {
+		cells = append(cells, &c19Cell{tool: tg.tool, input: "symlinked-target", fault: "none", setup: tg.setup})
+		cells = append(cells, &c19Cell{tool: tg.tool, input: "symlinked-target", fault: "rlimit-fsize", pre: "ulimit -f 1", setup: tg.setup})
+		for _, k := range []int{1, 2, 3, 5, 8} {
+			cells = append(cells, &c19Cell{tool: tg.tool, input: "symlinked-target", fault: "error:write", inject: fmt.Sprintf("write:error=ENOSPC:when=%d", k), setup: tg.setup})
+			cells = append(cells, &c19Cell{tool: tg.tool, input: "symlinked-target", fault: "kill:write", inject: fmt.Sprintf("write:signal=KILL:when=%d", k), setup: tg.setup})
+		}
+	}
+
 	// fault-free counts for the two injection targets
 	sys := []string{"openat", "write", "rename", "renameat", "renameat2", "close", "fsync", "fdatasync", "ftruncate", "unlinkat", "fchmod", "fchmodat"}
 	errFor := map[string]string{"openat": "EACCES", "write": "ENOSPC", "rename": "EIO", "renameat": "EIO", "renameat2": "EIO", "close": "EIO", "fsync": "EIO", "fdatasync": "EIO", "ftruncate": "EIO", "unlinkat": "EIO", "fchmod": "EIO", "fchmodat": "EIO"}
@@ -321,7 +353,11 @@ func runC19(args []string) {
 				argv, tgt, orig := c.setup(d)
 				res := runCLI(d, argv, c.inject, c.pre)
 				after, rerr := os.ReadFile(tgt)
-				c19Judge(r, c, res, orig, after, rerr, fullOf[c.tool+"/"+strings.SplitN(c.input, ":", 2)[0]], parse, argv)
+				var full []byte
+				if c.input == "valid" {
+					full = fullOf[c.tool+"/valid"]
+				}
+				c19Judge(r, c, res, orig, after, rerr, full, parse, argv)
 				os.RemoveAll(d)
 			}
 		}()
